@@ -204,13 +204,19 @@ on...",
         if S not in MS:
             return None
 
+        # update all steps at once when called for the first step, so that no counter is overwritten before it is read
+        if S is not MS[0]:
+            return None
+
         restart_from = min([me.status.slot for me in MS if me.status.restart] + [size - 1])
 
-        if S.status.slot < restart_from:
-            MS[restart_from - S.status.slot].status.restarts_in_a_row = 0
-        else:
-            step = MS[S.status.slot - restart_from]
-            step.status.restarts_in_a_row = S.status.restarts_in_a_row + 1 if S.status.restart else 0
+        new_restarts_in_a_row = [0] * len(MS)
+        for step in MS[restart_from:]:
+            if step.status.restart:
+                new_restarts_in_a_row[step.status.slot - restart_from] = step.status.restarts_in_a_row + 1
+
+        for step, restarts_in_a_row in zip(MS, new_restarts_in_a_row):
+            step.status.restarts_in_a_row = restarts_in_a_row
 
         return None
 
